@@ -1,4 +1,6 @@
 """C02 Boolean connectives, ITE, constants: terminal cases + wiring"""
+import ereduce
+import eshort
 import ecache
 import eunits
 import ewrap
@@ -34,4 +36,13 @@ def run(ctx):
     n = ecache.run(ctx, F, crates=("oxidd_rules_bdd::", "oxidd_rules_zbdd::"))
     ctx.floor("E-CACHE", "cache-using algorithm functions", n, 15)
     ecache.check_hit_equals_miss(ctx, F, crates=("oxidd_rules_bdd::", "oxidd_rules_zbdd::"))
+    ctx.explain("E-TABLE.shortcut: the shortcut prefix (equal/constant operands, delegations) of apply_ite and of the "
+                "ZBDD set operations is interpreted for all operand tuples over {constants, x, y, z} up to the cache "
+                "lookup; every shortcut taken must denote the operation.")
+    n = eshort.run(ctx, F, kinds=("bdd", "zbdd"))
+    ctx.floor("E-TABLE.shortcut", "shortcut situations interpreted", n, 20)
+    ctx.explain("E-TABLE.bcdd: terminal_and / terminal_xor of the complement-edge BDDs are interpreted for all 36 pairs of "
+                "{T, x, y} x {plain, complemented} and compared with and / xor on the denoted functions.")
+    n = ereduce.check_bcdd_terminal_tables(ctx, F)
+    ctx.floor("E-TABLE.bcdd", "operand pairs of terminal_and/terminal_xor", n, 72)
     ctx.not_decided = "the recursive step (Shannon expansion, cofactor collection), eval, cofactors"
